@@ -8,6 +8,7 @@ import Driver.C12
 import Driver.C14
 import Driver.C15
 import Driver.C16
+import Driver.C19
 import Driver.C20
 import Driver.Smb
 open Driver
@@ -21,6 +22,7 @@ def allEntries : List Entry :=
   ++ Driver.C14.entries
   ++ Driver.C15.entries
   ++ Driver.C16.entries
+  ++ Driver.C19.entries
   ++ Driver.C20.entries
   ++ Driver.Smb.entries
 
